@@ -1,8 +1,16 @@
 from checks.storelib import *
 from checks import storelib
 PROP = "C01"
-READY = False
-LEVEL_TEXT = "pending"; LEVEL_NOTE = "pending"; TECHNIQUE = "Coq proof + history differential"
+READY = True
+LEVEL_TEXT = ("Machine-checked proof (Coq): once an append succeeded and was published by the sync that precedes its acknowledgement, its events are in the visible abstract log, event lookup returns exactly them and "
+              "read_transaction the whole transaction, and this stays true after any further operations: failed/rejected appends, syncs, rollovers, reopen, crashes that keep the acknowledged prefix "
+              "(C01_ack_visible, C01_visible_monotone, C01_read_visible); the ack itself is tied to the sync by C20's SyncWatch theorems. Tie to the code: every append of generated histories is followed at once by lookups "
+              "and scans on the real Database and again after reopen; byte-identical content is checked by the harness; 'was fsynced' is observed independently of the Rust source by an LD_PRELOAD interposer that tracks "
+              "written-but-unsynced byte ranges of every data.evts file at acknowledgement time.")
+LEVEL_NOTE = ("Trusted: Coq kernel, extraction, OCaml driver, Rust harness, the libsvio.so interposer (fdatasync/fsync = durable; what the OS/disk do below that is not modelled). Scans of acknowledged events rely on C03. "
+              "Event-id uniqueness is a hypothesis of the lookup theorems (the code does not enforce it).")
+TECHNIQUE = "Coq proof (visibility invariant over operation lists) of a hand-written Gallina model + read-after-ack history differential + LD_PRELOAD fsync observation on the real Database"
 RULE = ("histories in which every append (single/multi-event, valid, rejected for version/key/sequence, failing half-way on a bad timestamp, too big) is followed at once by "
         "event lookup / partition scan / stream scan of the acknowledged events, with rollovers (128 KiB segments) and reopen; non-trivial = >=2 appends, one succeeded")
-monitor_e = storelib.monitor_kinds({"RE", "RT", "SS", "SP", "RO"}, "acked")
+monitor_e = storelib.monitor_kinds({"RE", "RT", "SS", "SP", "RO"}, "acked", durable=True)
+ENV = {"LD_PRELOAD": storelib.ensure_svio()}
